@@ -26,5 +26,7 @@ meta = {
     "checks_run_against_it": {"caught_by": [c for c in caught.split(",") if c], "missed_by": [c for c in missed.split(",") if c], "tier": "quick", "how": "tools/try_seed.sh: git -C /repo apply patch.diff; ./check <ID> quick; git -C /repo checkout -- ."},
     "origin": "independent sub-agent given only the property text and a scratch worktree",
 }
+if os.environ.get("NOTE"):
+    meta["checks_run_against_it"]["note"] = os.environ["NOTE"]
 json.dump(meta, open(f"{dst}/meta.json", "w"), indent=1)
 print("imported", dst)
